@@ -47,7 +47,7 @@ def oracle(cs, h, lines):
             fails.append(f'packet at log line {idx}: magic is {hd.get("magic"):#x}')
         if tf['uuid'] and bytes(hd.get('uuid', [])) != bytes(cs.ir['uuid']):
             fails.append(f'packet at log line {idx}: uuid differs from the trace type UUID')
-        if tf['dstId'] and hd.get('stream_id') != cs.d['id'] & ((1 << tf['dstId']['sz']) - 1):
+        if tf['dstId'] and hd.get('stream_id') != cs.d['id']:
             fails.append(f'packet at log line {idx}: stream_id is {hd.get("stream_id")}, data stream type ID is {cs.d["id"]}')
         if ctx['packet_size'] != total & ((1 << f['totalSize']['sz']) - 1):
             fails.append(f'packet at log line {idx}: packet_size field {ctx["packet_size"]} != buffer size {total} bits')
@@ -80,6 +80,44 @@ def run(c):
                                         known_classifier=rt.known_by(c, [('F9', rt.f9_territory)]),
                                         label='H-runtime (bit-packed features)', profile='rt-bits', seed_base=300)
     dis = dis + dis_b
+    # data stream type ID field types at the capacity boundary (exactly wide enough; one bit short must be refused —
+    # a configuration that is accepted is run like any other, and the packet's stream ID must be its data stream type's)
+    import random as _random, yaml as _yaml
+    from harness import gencfg
+    rb = _random.Random(c.seed * 31 + 5)
+    bound = {'generated': 0, 'accepted': 0, 'refused': 0}
+    work_b = common.scratch()
+    combos = [(cls, narrow, nd) for cls in ('uint', 'uenum') for narrow in (True, False) for nd in (3, 5)]
+    combos = combos * (1 if c.tier == 'quick' else 4)
+    for bi, (cls, narrow, nd) in enumerate(combos):
+        tree, _info = gencfg.gen_config_tree(rb, nd, 'rt')
+        bits = (nd - 1).bit_length()
+        sz = bits - (1 if narrow else 0)
+        ft = {'class': cls, 'size': max(1, sz), 'alignment': 8}
+        if ft['class'] == 'uenum':
+            ft['mappings'] = {'ALL': [[0, (1 << ft['size']) - 1]]}
+        tree['trace']['type'].setdefault('$features', {})['data-stream-type-id-field-type'] = ft
+        text = gencfg.HEADER + _yaml.safe_dump(tree, sort_keys=False, default_flow_style=False)
+        bound['generated'] += 1
+        try:
+            common.load_cfg(text)
+        except Exception:
+            bound['refused'] += 1
+            continue
+        bound['accepted'] += 1
+        names = sorted(tree['trace']['type']['data-stream-types'])
+        made = rt.make_case(c.seed * 1000 + 7000 + bi, work_b, yaml_text=text, dname=names[-1])
+        cs = made[0]
+        if not isinstance(cs, rt.Case):
+            continue
+        hs = [rt.flushing(hrt.gen_history)(rb, cs.ir, cs.dname, cs.openargs, cs.recs, cs.hdr, cs.sizes, toggles=False) for _ in range(6)]
+        for h, lines in zip(hs, hrt.run_impl(cs.exe, cs.ir, cs.dname, hs)):
+            fails = oracle(cs, h, lines)
+            if fails:
+                c.violation({'property': 'C04', 'kind': 'property fails on the implementation (data stream type ID field type at the '
+                             'capacity boundary)', 'failures': fails[:5], 'config_yaml': cs.text, 'dst': cs.dname, 'history': h})
+                break
+    c.coverage['correspondence']['data stream type ID field types at the capacity boundary'] = bound
     # layouts of the packet header / context (feature field types with every alignment) without compiling: the
     # operation trees must be the model's; if not, the differing configuration is built and run under this oracle
     from checks import lycommon as ly
